@@ -16,6 +16,7 @@ use plonky2::iop::witness::WitnessWrite;
 use plonky2::plonk::circuit_builder::CircuitBuilder;
 use plonky2::plonk::config::{AlgebraicHasher, GenericConfig};
 use plonky2::util::reducing::ReducingFactorTarget;
+use plonky2::util::log2_ceil;
 use plonky2::with_context;
 
 use crate::config::StarkConfig;
@@ -183,6 +184,15 @@ pub fn verify_stark_proof_with_challenges_circuit<
     let degree_sub_one_bits_vec = builder.split_le(degree_sub_one, degree_bits);
 
     if let Some(min_degree_bits_to_support) = min_degree_bits_to_support {
+        // `degree_bits >= min_degree_bits_to_support`. The FRI verifier below only ties the degree to
+        // the shape of the proof through random accesses indexed by `degree_bits - min`, and a
+        // random access into a single element (min == max) does not constrain its index at all.
+        let min_degree_bits = builder.constant(F::from_canonical_usize(min_degree_bits_to_support));
+        let excess = builder.sub(proof.degree_bits, min_degree_bits);
+        builder.range_check(
+            excess,
+            log2_ceil(degree_bits - min_degree_bits_to_support + 1).max(1),
+        );
         builder.verify_fri_proof_with_multiple_degree_bits::<C>(
             &fri_instance,
             &proof.openings.to_fri_openings(zero),
